@@ -219,7 +219,9 @@ PROPS["C13"] = dict(
 )
 
 PROPS["C14"] = dict(
-    jobs=lambda ctx: core_jobs("C14", ctx, split=(8, 8)),
+    # plus one Miri shard (every pair of the boundary set through every operator): a comparison that reads
+    # payload bytes of the payload-less sentinels is silent everywhere else
+    jobs=lambda ctx: core_jobs("C14", ctx, split=(8, 8)) + miri_jobs("C14", "mon-core", ctx, 1),
     replay=core_replay("C14"),
     exhaustive=True,
     exhaustive_note=("complete over S x S (pairs) and S x S x S (transitivity) for the 87-element score set S (both "
